@@ -258,7 +258,7 @@ func runC11(id string, start time.Time) int {
 		part.Sample(map[string]any{"tasks": p.Tasks, "contexts": len(ctxs)}, 3)
 	})
 	rep := h.Report{ID: id, Level: "exploration", Start: start, MinEvents: 100, EventsKey: "comparisons",
-		Rule: "projects: 2-4 tasks in different dir:s (root file and an include with dir:), all defining the same dynamic variables with identical sh: texts (pwd, cat val.txt, printf \"x=$X\"), per-task env, a global sh: var, matrices whose rows are refs to lists built from the call variable. Reference = the task alone in a fresh process with the same X. Contexts: the tasks as a CLI sequence in both orders, --parallel, --concurrency 1, as deps of one task, as calls of one task in both orders, and the same task called with three values sequentially, as parallel deps and through a for-loop. Oracle: the task's OBS lines (rendered variables, pwd, env seen by the command, loop items) equal the reference. A case is one (project, context); all are non-trivial (another task or another call precedes or accompanies the task); distinct by (project text hash, context).",
+		Rule:        "projects: 2-4 tasks in different dir:s (root file and an include with dir:), all defining the same dynamic variables with identical sh: texts (pwd, cat val.txt, printf \"x=$X\"), per-task env, a global sh: var, matrices whose rows are refs to lists built from the call variable. Reference = the task alone in a fresh process with the same X. Contexts: the tasks as a CLI sequence in both orders, --parallel, --concurrency 1, as deps of one task, as calls of one task in both orders, and the same task called with three values sequentially, as parallel deps and through a for-loop. Oracle: the task's OBS lines (rendered variables, pwd, env seen by the command, loop items) equal the reference. A case is one (project, context); all are non-trivial (another task or another call precedes or accompanies the task); distinct by (project text hash, context).",
 		Assumptions: []string{"the reference run (task alone, fresh process) defines the task's meaning", "observations cover rendered variables, working directory, selected environment variables and loop items, not every internal attribute"}}
 	return h.Finish(rep, part)
 }
